@@ -329,6 +329,10 @@ class World:
             out["exc_msg"] = str(e)[:100]
         out["bytes"] = list(w.to_bytearray())
         out["san_end"] = bool(w.string_sanitization_mode)
+        if c.get("direct_nested") and not out["exc"]:
+            # every nested generated object (struct, array element, case data) is also a public class of its own: enter its
+            # serialize / deserialize DIRECTLY with either mode (the wrappers log entry and exit of each of these calls too)
+            self.direct_nested(obj)
         out["calls"] = self.calls
         out["modes"] = list(self.wmodes)
         p = self.progs.get(c["prog"])
@@ -377,6 +381,42 @@ class World:
             d["remaining"] = r.remaining
             out["de"] = d
         return out
+
+    def direct_nested(self, o):
+        seen = []
+
+        def visit(x, top):
+            if x is None or isinstance(x, (int, str, bytes, bytearray, bool)):
+                return
+            if isinstance(x, (tuple, list)):
+                for y in x[:2]:
+                    visit(y, False)
+                return
+            if hasattr(type(x), "serialize") and hasattr(x, "byte_size"):
+                if not top and type(x) not in seen:
+                    seen.append(type(x))
+                    own = None
+                    for mode in (False, True):
+                        w2 = self.writer_mod.EoWriter()
+                        w2.string_sanitization_mode = mode
+                        try:
+                            type(x).serialize(w2, x)
+                            own = bytes(w2.to_bytearray())
+                        except Exception:
+                            pass
+                    if own is not None:
+                        for data in (own, own[:-1], own + b"\xff\x01"):
+                            for mode in (False, True):
+                                r2 = self.reader_mod.EoReader(data)
+                                r2.chunked_reading_mode = mode
+                                try:
+                                    type(x).deserialize(r2)
+                                except Exception:
+                                    pass
+                for name in dir(type(x)):
+                    if isinstance(getattr(type(x), name, None), property) and name != "byte_size":
+                        visit(getattr(x, name), False)
+        visit(o, True)
 
     def nested_sizes(self, o):
         """byte_size of every nested generated object vs the number of bytes that object serializes to on its own."""
@@ -428,7 +468,8 @@ class World:
             out["ctor_exc"] = type(e).__name__ + ": " + str(e)[:100]
             return out
 
-        def snap():
+        def snap(obj=None):
+            obj = the_obj if obj is None else obj
             before = self.project(obj)                 # what the instance looks like BEFORE it is serialized (again)
             rep0 = repr(obj)
             w = self.writer_mod.EoWriter()
@@ -437,8 +478,24 @@ class World:
                 ser = list(w.to_bytearray())
             except Exception as e:
                 ser = "EXC " + type(e).__name__
-            return {"proj": before, "ser": ser, "proj_after_serialize": self.project(obj), "repr_changed_by_serialize": repr(obj) != rep0}
-        out["initial"] = snap()
+            via_write = None
+            if hasattr(obj, "write") and type(obj) is cls:
+                # a packet is normally sent through its write() method: same bytes, and the instance stays what it was
+                w3 = self.writer_mod.EoWriter()
+                try:
+                    obj.write(w3)
+                    via_write = list(w3.to_bytearray())
+                except Exception as e:
+                    via_write = "EXC " + type(e).__name__
+            return {"proj": before, "ser": ser, "proj_after_serialize": self.project(obj), "repr_changed_by_serialize": repr(obj) != rep0,
+                    "write_differs": via_write is not None and via_write != ser}
+        the_obj = obj
+        if c.get("blind") and c.get("from_bytes") is None:
+            # the instance is NOT looked at before the history starts: the baseline is a twin built from a private copy of the arguments
+            import copy
+            out["initial"] = snap(self.cls_of(c["obj"]["_t"])(**copy.deepcopy(args)))
+        else:
+            out["initial"] = snap()
         for a in c["actions"]:
             st = {"action": a, "exc": ""}
             try:
